@@ -882,6 +882,22 @@ func (ce *CEnv) evalCall(n *ast.CallExpr) (Val, error) {
 				out.C = append(out.C, UF("map."+typeKey(mt)+c.Path, c.Sort, m.C[0], kv.C[0]))
 			}
 			return out, nil
+		case "ifn":
+			// ifn("iface pkg.Type.Method", recv, args...): the result of a contract declared `functional`
+			lit, ok := n.Args[0].(*ast.BasicLit)
+			if !ok {
+				return Val{}, fmt.Errorf("ifn: first argument must be a string literal")
+			}
+			name, _ := strconv.Unquote(lit.Value)
+			var in []*Term
+			for _, a := range n.Args[1:] {
+				v, err := ce.eval(a)
+				if err != nil {
+					return Val{}, err
+				}
+				in = append(in, v.C...)
+			}
+			return Val{T: intT, C: []*Term{UF("fn."+name, BV64, in...)}}, nil
 		case "isenc":
 			a, err := ce.eval(n.Args[0])
 			if err != nil {
